@@ -793,7 +793,13 @@ def apply_fn_factory(ctx: Ctx):
     def apply(st, op, path):
         ctx.siblings = []
         rp = ctx.replay(path)  # holds `op` itself: completing op["draws"] below completes the replay
+        if getattr(st, "_vf_corrupt", False):
+            return None        # the stored state was changed through one of its clones (reported on that edge): no further edges from it
         _seed(SEED)
+        try:
+            st_before = (arch(st), param_shapes(st), typed(st.init_dict))
+        except Exception:
+            st_before = None
         try:
             c = st.clone()
         except Exception:
@@ -806,12 +812,32 @@ def apply_fn_factory(ctx: Ctx):
         a0, s0 = arch(c), param_shapes(c)
         d = Draws(op["draws"])
         _seed(SEED + 1)
+        def parent_untouched():
+            # independence of the rebuilt copy: mutating the clone must leave the state it was cloned from as it was
+            # (architecture, parameter shapes, init_dict) - otherwise the parent is no longer rebuildable from its init_dict
+            if st_before is None:
+                return
+            try:
+                now = (arch(st), param_shapes(st), typed(st.init_dict))
+            except Exception as ex:
+                now = ("unreadable", repr(ex))
+            if now != st_before:
+                st._vf_corrupt = True
+                if not oracle.JUDGES_MUTATION_EXCEPTIONS:
+                    p.extra["parent_changed_through_clone_(judged_by_C03)"] += 1
+                    return
+                which = [n for n, a, b in zip(("architecture", "parameter shapes", "init_dict"), st_before, now) if a != b] if len(now) == 3 else ["unreadable"]
+                p.viol(f"{type(c).__name__}/{_gen(op['m'])}/mutating-the-clone-changed-its-parent/{'+'.join(which)}",
+                       f"{op['m']}({op['kw']}) applied to a clone() changed the {', '.join(which)} of the object it was cloned from "
+                       f"(parent init_dict before {st_before[2]} after {now[2] if len(now) == 3 else now}): clone and parent share constructor arguments", rp)
+
         try:
             with scripted(d):
                 ret = getattr(c, op["m"])(**typed_kwargs(op["kw"]))
         except HarnessError:
             raise
         except Exception as e:
+            parent_untouched()
             if len(d.answers) > d.i:
                 raise HarnessError(f"scripted answers not consumed: {op}")
             ctx.siblings = d.siblings
@@ -829,6 +855,7 @@ def apply_fn_factory(ctx: Ctx):
             p.out(f"{type(c).__name__}|{_gen(op['m'])}|exception:{type(e).__name__}")
             p.dg("exc", op, type(e).__name__)
             return None
+        parent_untouched()
         if d.i < len(d.answers):
             raise HarnessError(f"scripted answers not consumed: {op}")
         ctx.siblings = d.siblings
